@@ -162,11 +162,21 @@ def check_history(case):
         P.BARRIER.log[:] = []
 
 
-_step = st.one_of(P.call_strategy().map(lambda c: {"call": c}), P.call_strategy().map(lambda c: {"call": c}),
-                  P.call_strategy(families=True).map(lambda cs: {"calls": cs}),
-                  P.call_strategy(families=True).map(lambda cs: {"calls": cs}),
-                  st.integers(0, 49).map(lambda i: {"repeat": i}), st.integers(0, 49).map(lambda i: {"repeat": i}),
-                  st.tuples(st.integers(1, 8), st.integers(2, 8)).map(lambda t: {"threads": list(t)}))
+@st.composite
+def _step_s(draw):
+    # the kind is drawn first: one_of over the mapped call strategies would be flattened into their ~55 branches and
+    # leave the repeat / threads steps with 3 chances in 220
+    kind = draw(st.sampled_from(["call", "call", "calls", "calls", "repeat", "repeat", "threads"]))
+    if kind == "call":
+        return {"call": draw(P.call_strategy())}
+    if kind == "calls":
+        return {"calls": draw(P.call_strategy(families=True))}
+    if kind == "repeat":
+        return {"repeat": draw(st.integers(0, 49))}
+    return {"threads": [draw(st.integers(1, 8)), draw(st.integers(2, 8))]}
+
+
+_step = _step_s()
 history_cases = st.one_of(st.lists(_step, min_size=1, max_size=50), st.lists(_step, min_size=10, max_size=50),
                           st.lists(_step, min_size=20, max_size=50)).map(lambda h: {"history": h})
 
